@@ -3,6 +3,10 @@ import Proofs.C19Bits
 import Proofs.C19Time
 import Proofs.C19Decode
 import Proofs.C19Gen
+import Proofs.C19Order
+import Proofs.C19Java
+import Proofs.C19Conc
+import Model.UuidErr
 /-!
 # C19 — UUIDs parse, print and carry time faithfully; generated time-UUIDs are unique (property theorems)
 
@@ -122,6 +126,27 @@ theorem C19_random_v4 (u : List UInt8) (h : u.length = 16) :
     (byteAt (stampV4 u) 8 &&& 0x3F).toNat = (byteAt u 8).toNat % 64 :=
   stampV4_facts u h
 
+/-- `RandomUUID` for every state of the random source: it reports success exactly when 16 bytes were delivered, a
+    successful result always has version 4 and the RFC 4122 variant (so no unstamped value is ever returned as a
+    UUID), and a failure is reported as an error (`MustRandomUUID`: a panic) with 16 bytes that start with what
+    was read. -/
+theorem C19_random_total (avail : List UInt8) :
+    ((randomUUID avail).1 = true ↔ 16 ≤ avail.length) ∧
+    ((randomUUID avail).1 = true → (randomUUID avail).2.length = 16 ∧ version (randomUUID avail).2 = 4 ∧
+      variant (randomUUID avail).2 = 2) ∧
+    ((randomUUID avail).1 = false → (randomUUID avail).2.length = 16 ∧ (randomUUID avail).2.take avail.length = avail) := by
+  unfold randomUUID
+  by_cases h : 16 ≤ avail.length
+  · simp only [h, if_true, true_iff, forall_const]
+    have hl : (avail.take 16).length = 16 := by simp; omega
+    have := stampV4_facts (avail.take 16) hl
+    refine ⟨trivial, ⟨?_, this.1, this.2.1⟩, by simp⟩
+    simp [stampV4, hl]
+  · simp only [h, if_false]
+    refine ⟨by simp, by simp, fun _ => ⟨by simp; omega, by simp⟩⟩
+
+example : randomUUID (List.replicate 15 0xff) = (false, List.replicate 15 0xff ++ [0]) := by decide
+
 /-- Min/MaxTimeUUID bound every RFC 4122 version-1 UUID of the same instant under Cassandra's order
     (timestamp first, then the low 8 bytes compared as SIGNED bytes). -/
 theorem C19_min_max_bound (ts : Nat) (hts : ts < 2 ^ 60) (u : List UInt8) (hl : u.length = 16)
@@ -142,6 +167,122 @@ theorem C19_min_max_bound_time (sec : Int) (nsec : Nat) (hr : Representable sec 
 
 /-- a signed-byte order is needed: 0x80 sorts below 0x7f here (non-vacuity of the "signed" part) -/
 example : Spec.sLexLe [0x80] [0x7f] = true ∧ Spec.sLexLe [0x7f] [0x80] = false := by decide
+
+/-! ### Cassandra's order at full strength: the bounds are EXACT, and they delimit time ranges
+
+`MinTimeUUID` / `MaxTimeUUID` exist "to select a time range of a Cassandra's TimeUUID column" (uuid.go). What such a
+query selects is decided by Cassandra's comparison alone; the theorems below say which version-1 RFC 4122 UUIDs
+that is, for every pair of representable instants and every UUID. -/
+
+/-- Cassandra's comparison (`Spec.cassLe`: timestamp, then the low 8 bytes as signed bytes) is a total preorder on
+    all byte strings, and antisymmetric on what it compares: two 16-byte values each ≤ the other have the same
+    timestamp field and the same clock-sequence and node bytes. -/
+theorem C19_cass_order (u v w : List UInt8) :
+    Spec.cassLe u u = true ∧
+    (Spec.cassLe u v = true ∨ Spec.cassLe v u = true) ∧
+    (Spec.cassLe u v = true → Spec.cassLe v w = true → Spec.cassLe u w = true) ∧
+    (u.length = 16 → v.length = 16 → Spec.cassLe u v = true → Spec.cassLe v u = true →
+      Spec.rfcTimestamp u = Spec.rfcTimestamp v ∧ u.drop 8 = v.drop 8) :=
+  ⟨cassLe_refl u, cassLe_total u v, cassLe_trans u v w, cassLe_antisymm u v⟩
+
+/-- Two formulations of Cassandra's `TimeUUIDType` comparison agree, for all pairs of version-1 16-byte values:
+    the byte formulation `Spec.cassLe` (timestamp, then the low 8 bytes as signed bytes — Cassandra ≤ 2.x and the
+    comment in uuid.go) and the long-arithmetic formulation `Spec.javaLe` (Cassandra 3.x / 4.x `compareCustom`:
+    `Long.compare` of `reorderTimestampBytes(msb)`, then of `lsb ^ 0x0080808080808080`), both transliterated as
+    recalled.  So every theorem here about `cassLe` is a theorem about either. -/
+theorem C19_cass_java_agree (u v : List UInt8) (hu : u.length = 16) (hv : v.length = 16)
+    (vu : version u = 1) (vv : version v = 1) : Spec.javaLe u v = Spec.cassLe u v :=
+  java_agree u v hu hv vu vv
+
+example : Spec.javaLe (timeUUIDWith 5 0x8080 [0x80, 0x80, 0x80, 0x80, 0x80, 0x80]) (timeUUIDWith 5 0x7f7f [0x7f, 0x7f, 0x7f, 0x7f, 0x7f, 0x7f]) = true ∧
+    Spec.javaLe (timeUUIDWith 5 0x7f7f [0x7f, 0x7f, 0x7f, 0x7f, 0x7f, 0x7f]) (timeUUIDWith 5 0x8080 [0x80, 0x80, 0x80, 0x80, 0x80, 0x80]) = false := by
+  decide
+
+/-- The bounds of an instant are EXACT: a version-1 RFC 4122 UUID lies between `MinTimeUUID(t)` and
+    `MaxTimeUUID(t)` under Cassandra's order IF AND ONLY IF its timestamp is `t`'s 100 ns tick
+    (`C19_min_max_bound_time` is the direction ⇐). -/
+theorem C19_min_max_exact (sec : Int) (nsec : Nat) (hr : Representable sec nsec) (u : List UInt8)
+    (hl : u.length = 16) (hv : version u = 1) (hvar : variant u = 2) :
+    (Spec.cassLe (minTimeUUID sec nsec) u = true ∧ Spec.cassLe u (maxTimeUUID sec nsec) = true) ↔
+    timestamp u = tick (sec, nsec) := by
+  rw [min_le_iff (sec, nsec) hr u hl hv hvar, le_max_iff (sec, nsec) hr u hl hv hvar]
+  omega
+
+/-- Inclusive range `id >= minTimeuuid(a) AND id <= maxTimeuuid(b)`: selects exactly the version-1 RFC 4122 UUIDs
+    whose timestamp lies in `[tick a, tick b]` — none of instant `a` or `b` is lost, none outside is included. -/
+theorem C19_range_inclusive (a b : Int × Nat) (ha : Representable a.1 a.2) (hb : Representable b.1 b.2)
+    (u : List UInt8) (hl : u.length = 16) (hv : version u = 1) (hvar : variant u = 2) :
+    (Spec.cassLe (minTimeUUID a.1 a.2) u = true ∧ Spec.cassLe u (maxTimeUUID b.1 b.2) = true) ↔
+    (tick a ≤ timestamp u ∧ timestamp u ≤ tick b) := by
+  rw [min_le_iff a ha u hl hv hvar, le_max_iff b hb u hl hv hvar]
+
+/-- Exclusive range `id > maxTimeuuid(a) AND id < minTimeuuid(b)` (strictly above / below = not ≤ / not ≥):
+    selects exactly the UUIDs whose timestamp lies strictly between the two ticks — every UUID of instant `a` and
+    of instant `b` is excluded, whatever its clock sequence and node. -/
+theorem C19_range_exclusive (a b : Int × Nat) (ha : Representable a.1 a.2) (hb : Representable b.1 b.2)
+    (u : List UInt8) (hl : u.length = 16) (hv : version u = 1) (hvar : variant u = 2) :
+    (Spec.cassLe u (maxTimeUUID a.1 a.2) = false ∧ Spec.cassLe (minTimeUUID b.1 b.2) u = false) ↔
+    (tick a < timestamp u ∧ timestamp u < tick b) := by
+  rw [max_lt_iff a ha u hl hv hvar, lt_min_iff b hb u hl hv hvar]
+
+/-- The bounds of different ticks never overlap: if `a`'s tick is before `b`'s, everything of instant `a`
+    (up to and including `MaxTimeUUID(a)`) is strictly below everything of instant `b` (from `MinTimeUUID(b)` on);
+    and instants are mapped to ticks monotonically (`(sec - base)·10^7 + nsec/100`, exactly). -/
+theorem C19_bounds_monotone (a b : Int × Nat) (ha : Representable a.1 a.2) (hb : Representable b.1 b.2) :
+    (readingLe a b → tick a ≤ tick b) ∧
+    (tick a < tick b →
+      Spec.cassLe (maxTimeUUID a.1 a.2) (minTimeUUID b.1 b.2) = true ∧
+      Spec.cassLe (minTimeUUID b.1 b.2) (maxTimeUUID a.1 a.2) = false) ∧
+    Spec.cassLe (minTimeUUID a.1 a.2) (maxTimeUUID a.1 a.2) = true := by
+  refine ⟨tick_mono a b ha hb, fun h => ?_, ?_⟩
+  · exact cassLe_of_ts_lt _ _ (by rw [rfcTs_max a ha, rfcTs_min b hb]; exact h)
+  · apply (min_le_iff a ha _ (with_length ..) (version_with ..) (variant_with ..)).mpr
+    rw [timestamp_eq_rfc _ (with_length ..) (version_with ..)]
+    exact Nat.le_of_eq (rfcTs_max a ha).symm
+
+/-- GENERATED time-UUIDs under Cassandra's order: whatever the counter values and nodes (also of different
+    processes), a UUID generated from an instant of an earlier tick sorts strictly below one generated from an
+    instant of a later tick, and every generated UUID lies within the Min/Max bounds of its own instant — so a
+    time-range query finds exactly the generated UUIDs of the instants it names. (Within one tick the order is by
+    clock sequence and node as signed bytes, i.e. NOT by generation order.) -/
+theorem C19_generated_cass_order (c c' : Nat) (hw hw' : List UInt8) (a b : Int × Nat)
+    (ha : Representable a.1 a.2) (hb : Representable b.1 b.2) :
+    (tick a < tick b →
+      Spec.cassLe (timeUUID c hw a).1 (timeUUID c' hw' b).1 = true ∧
+      Spec.cassLe (timeUUID c' hw' b).1 (timeUUID c hw a).1 = false) ∧
+    Spec.cassLe (minTimeUUID a.1 a.2) (timeUUID c hw a).1 = true ∧
+    Spec.cassLe (timeUUID c hw a).1 (maxTimeUUID a.1 a.2) = true := by
+  have hts : ∀ (c : Nat) (hw : List UInt8) (x : Int × Nat), Representable x.1 x.2 →
+      Spec.rfcTimestamp (timeUUID c hw x).1 = tick x := by
+    intro c hw x hx
+    simp only [timeUUID, uuidFromTime]
+    rw [(tick_eq_bits x hx).1, rfcTimestamp_with _ _ _ (tick_eq_bits x hx).2]
+  refine ⟨fun h => cassLe_of_ts_lt _ _ (by rw [hts c hw a ha, hts c' hw' b hb]; exact h), ?_⟩
+  have hu : (timeUUID c hw a).1 = timeUUIDWith (bits64 (getTimestamp a.1 a.2)) ((c + 1) % 2 ^ 32) hw := rfl
+  have hts' : timestamp (timeUUID c hw a).1 = tick a := by
+    rw [hu, timestamp_with_mod]; rfl
+  exact (C19_min_max_exact a.1 a.2 ha _ (by rw [hu]; exact with_length ..) (by rw [hu]; exact version_with ..)
+    (by rw [hu]; exact variant_with ..)).mpr hts'
+
+/-- within one tick Cassandra's order is not generation order: the counter crossing 0x3fff → 0x4000 (clock field
+    wraps to 0) or 0x..7f → 0x..80 in the low clock byte (signed bytes) sorts the LATER UUID first -/
+example : Spec.cassLe (timeUUID 0x7f [1, 2, 3, 4, 5, 6] (1700000000, 0)).1 (timeUUID 0x7e [1, 2, 3, 4, 5, 6] (1700000000, 0)).1 = true ∧
+    Spec.cassLe (timeUUID 0x7e [1, 2, 3, 4, 5, 6] (1700000000, 0)).1 (timeUUID 0x7f [1, 2, 3, 4, 5, 6] (1700000000, 0)).1 = false := by
+  decide
+
+/-- "RFC 4122" in the property text is needed: a version-1 value of the same timestamp whose variant bits are
+    not `10` (byte 8 = 0x7f, a legal NCS-variant value) sorts ABOVE `MaxTimeUUID` — the maximum's own byte 8 is
+    0xbf (= -65 signed) because `TimeUUIDWith` stamps the variant over the clock constant 0x7f7f. -/
+theorem C19_cex_bound_needs_variant :
+    version [0, 0, 0, 0, 0, 0, 0x10, 0, 0x7f, 0, 0, 0, 0, 0, 0, 0] = 1 ∧
+    timestamp [0, 0, 0, 0, 0, 0, 0x10, 0, 0x7f, 0, 0, 0, 0, 0, 0, 0] = tick (timeBase, 0) ∧
+    Spec.cassLe [0, 0, 0, 0, 0, 0, 0x10, 0, 0x7f, 0, 0, 0, 0, 0, 0, 0] (maxTimeUUID timeBase 0) = false := by
+  decide
+
+/-- non-vacuity: an instant, a UUID of the next tick, and the ranges that do / do not contain it -/
+example : tick (1700000000, 123456789) = 139192928000000000 + 1234567 := by decide
+example : Spec.cassLe (timeUUIDWith (139192928000000000 + 1234568) 0x8080 [0x80, 0x80, 0x80, 0x80, 0x80, 0x80])
+    (maxTimeUUID 1700000000 123456789) = false := by decide
 
 /-! ## The decoding entry points and the DESTINATION they are called on
 Model: `Model/UuidDecode.lean` — `ParseUUID` as written (every digit OR-ed into an array), `UnmarshalText`,
@@ -373,6 +514,53 @@ theorem C19_cql_time_destination (sec : Int) (nsec clk : Nat) (nd : List UInt8) 
     split <;> simp
   · intro data; simp [unmarshalCQLTime]
 
+/-- Nullable destinations (`**UUID`, `**[16]byte`, `**[]byte`, `**string`) of `gocql.Unmarshal`, for every column
+    value and whatever the pointer pointed to before: a null column gives a nil pointer; a 16-byte value gives a
+    pointer to exactly that value (canonical text for `**string`); every other value gives a pointer to a FRESH
+    value — the zero value with an error for a wrong length, the empty value for an empty column (`**[16]byte`:
+    error) — never a half-written or stale one. -/
+theorem C19_cql_nullable_spec (data : List UInt8) (k : Dst) :
+    unmarshalNullable none k = (true, none) ∧
+    (data.length = 16 → ∀ p, unmarshalNullable (some data) (.uuid p) = (true, some (.uuid data)) ∧
+        unmarshalNullable (some data) (.arr p) = (true, some (.arr data)) ∧
+        (∀ q, unmarshalNullable (some data) (.bytes q) = (true, some (.bytes (some data)))) ∧
+        unmarshalNullable (some data) (.str p) = (true, some (.str (asciiBytes (print data))))) ∧
+    (data.length = 0 → ∀ p, unmarshalNullable (some data) (.uuid p) = (true, some (.uuid zero16)) ∧
+        unmarshalNullable (some data) (.arr p) = (false, some (.arr zero16)) ∧
+        (∀ q, unmarshalNullable (some data) (.bytes q) = (true, some (.bytes none))) ∧
+        unmarshalNullable (some data) (.str p) = (true, some (.str []))) ∧
+    (data.length ≠ 0 → data.length ≠ 16 → unmarshalNullable (some data) k = (false, some k.zero)) := by
+  refine ⟨rfl, fun h p => ?_, fun h p => ?_, fun h0 h16 => ?_⟩
+  · simp [unmarshalNullable, Dst.zero, unmarshalCQL, h]
+  · simp [unmarshalNullable, Dst.zero, unmarshalCQL, h]
+  · simp [unmarshalNullable, unmarshalCQL, h0, h16]
+
+/-- `*UUID` values round-trip through a nullable column: nil pointer ↦ null ↦ nil pointer, a pointer to `u` ↦ the
+    16 bytes ↦ a (fresh) pointer to `u`; and a `**time.Time` reading a timeuuid column of a representable instant
+    gets a pointer to that instant (to 100 ns), a null gives a nil pointer, anything else an error and a pointer to
+    the zero time. -/
+theorem C19_cql_nullable_roundtrip (u : Option (List UInt8)) (h : ∀ v, u = some v → v.length = 16) (p : List UInt8) :
+    ∃ col, marshalPtr u = some col ∧ unmarshalNullable col (.uuid p) = (true, u.map .uuid) := by
+  cases u with
+  | none => exact ⟨none, rfl, rfl⟩
+  | some v =>
+    refine ⟨some v, rfl, ?_⟩
+    have := h v rfl
+    simp [unmarshalNullable, Dst.zero, unmarshalCQL, this]
+
+theorem C19_cql_nullable_time (sec : Int) (nsec clk : Nat) (nd : List UInt8) (h : Representable sec nsec) :
+    unmarshalNullableTime true (some (timeUUIDWith (bits64 (getTimestamp sec nsec)) clk nd)) =
+      (true, some (sec, nsec / 100 * 100)) ∧
+    (∀ tu, unmarshalNullableTime tu none = (true, none)) ∧
+    (∀ d, d.length ≠ 16 → unmarshalNullableTime true (some d) = (false, some zeroTime)) ∧
+    (∀ d, unmarshalNullableTime false (some d) = (false, some zeroTime)) := by
+  refine ⟨?_, fun _ => rfl, fun d hd => ?_, fun d => ?_⟩
+  · have := (C19_cql_time_destination sec nsec clk nd h zeroTime)
+    simp only [unmarshalNullableTime]
+    rw [this.1]
+  · simp [unmarshalNullableTime, unmarshalCQLTime, hd]
+  · simp [unmarshalNullableTime, unmarshalCQLTime]
+
 /-- non-vacuity, and two things worth knowing about `UnmarshalJSON`: (1) it is STRICTER than `ParseUUID` on long
     texts (more than 4 extra hyphens → error); (2) it never looks at the JSON token kind: a 32-digit JSON NUMBER
     (also negative, also with an exponent letter, `e` being a hex digit) decodes as a UUID. -/
@@ -569,5 +757,217 @@ theorem C19_genrun_answer_distinct (hw : List UInt8) (c : Nat) (sec : Int) (nsec
 example : (genRun [1, 2, 3, 4, 5, 6] 0xffffffff [(1700000000, 5), (1700000000, 5), (1700000000, 5)]).Pairwise (· ≠ ·) :=
   C19_timeuuid_unique_if_clock_advances _ _ _ (by intro i j hi hj hij _; simp at hj; omega)
 example : steppedClock 1700000000 999999950 2 100 5 = (1700000001, 150) := by decide
+
+/-! ### error values (`Model/UuidErr.lean`) -/
+
+/-- The error values are consistent with the decoders, for every input and destination: an entry point returns
+    an error EXACTLY when the modelled decode fails (so no failure is silent and no success carries an error), and
+    a rejected text is named in the error — `invalid UUID "<the input, quoted>"` — for every ASCII input. -/
+theorem C19_error_iff_failure (dst bs : List UInt8) (d : Dst) (tu : Bool) (prev : Int × Nat) :
+    ((textErr bs).isNone = (unmarshalText dst bs).1) ∧
+    ((jsonErr bs).isNone = (unmarshalJSON dst bs).1) ∧
+    ((marshalErr tu d).isNone = (marshalCQL d).isSome) ∧
+    ((unmarshalErr tu bs d).isNone = (unmarshalCQL bs d).1) ∧
+    ((unmarshalTimeErr tu bs).isNone = (unmarshalCQLTime tu bs prev).1) ∧
+    (isASCII bs = true → (unmarshalText dst bs).1 = false →
+      textErr bs = some ⟨.plain, some (lit "invalid UUID " ++ quoteASCII bs)⟩) := by
+  refine ⟨?_, ?_, ?_, ?_, ?_, ?_⟩
+  · simp only [textErr, unmarshalText]
+    cases h : parseUUID (runes bs) <;> rfl
+  · simp only [jsonErr, unmarshalJSON, textErr]
+    split
+    · rfl
+    · cases h : parseUUID (runes (trimQuotes bs)) <;> rfl
+  · cases d with
+    | uuid u => rfl
+    | arr a => rfl
+    | bytes b =>
+      cases b with
+      | none => simp [marshalErr, marshalCQL]
+      | some b => by_cases h : b.length = 16 <;> simp [marshalErr, marshalCQL, h]
+    | str t =>
+      simp only [marshalErr, marshalCQL, textErr]
+      cases h : parseUUID (runes t) <;> rfl
+  · simp only [unmarshalErr, unmarshalCQL]
+    split
+    · cases d <;> rfl
+    · split
+      · rfl
+      · cases d <;> rfl
+  · simp only [unmarshalTimeErr, unmarshalCQLTime, time]
+    cases tu with
+    | false => simp; split <;> rfl
+    | true =>
+      simp only [if_true, Bool.not_true, Bool.false_eq_true, if_false]
+      split
+      · rfl
+      · split <;> rfl
+  · intro ha hf
+    simp only [textErr, unmarshalText] at hf ⊢
+    split at hf
+    · simp at hf
+    · rename_i h; simp [h, parseErr, ha]
+
+/-- non-vacuity: what `%q` does to a quote, a backslash, a tab, a NUL and DEL inside a rejected text -/
+example : textErr [34, 92, 9, 0, 127, 103] =
+    some ⟨.plain, some (lit "invalid UUID \"\\\"\\\\\\t\\x00\\x7fg\"")⟩ := by decide
+
+/-! ### concurrent callers as a small-step machine (`Model/UuidConc.lean`): ALL interleavings
+
+The paragraph above ("any schedule of any number of concurrent callers is a run `genRun hw c readings`") is now a
+theorem about a machine whose actions are the two steps of `TimeUUID()` per goroutine — `now g` (the reading) and
+`inc g` (the atomic increment; everything after it is goroutine-local and pure) — plus the environment setting
+the wall clock to anything.  A schedule is an arbitrary `List Act`. -/
+
+/-- LINEARIZATION, every schedule: the UUIDs returned, in the order of the increments, are the generator run
+    over the readings the callers held, in that order; the counter has moved by exactly the number of returns.
+    Hence every theorem about `genRun` (`C19_timeuuid_dup_iff`, `…_unique_if_clock_advances`, `C19_genrun_*`)
+    speaks about every interleaving of any number of goroutines. -/
+theorem C19_conc_linearizes (hw : List UInt8) (c : Nat) (t : Int × Nat) (acts : List Act) :
+    (concRun hw (concInit c t) acts).out.map (·.uuid) =
+      genRun hw c ((concRun hw (concInit c t) acts).out.map (·.reading)) ∧
+    (c < 2 ^ 32 → (concRun hw (concInit c t) acts).clockSeq = genCtr c (concRun hw (concInit c t) acts).out.length) := by
+  refine ⟨(conc_is_genRun hw (concInit c t) rfl acts).1, fun hc => ?_⟩
+  have := (conc_counter hw (concInit c t) hc acts).2
+  simpa [concInit] using this
+
+/-- every schedule in which at most 16384 calls return — whatever the number of goroutines, the interleaving of
+    readings and increments, and the behaviour of the wall clock — returns pairwise distinct UUIDs -/
+theorem C19_conc_unique_upto_16384 (hw : List UInt8) (c : Nat) (t : Int × Nat) (acts : List Act)
+    (h : (concRun hw (concInit c t) acts).out.length ≤ 16384) :
+    ((concRun hw (concInit c t) acts).out.map (·.uuid)).Pairwise (· ≠ ·) := by
+  rw [(C19_conc_linearizes hw c t acts).1, genRun_eq_gens]
+  exact C19_unique_partial hw c _ (by simpa using h)
+
+/-- every schedule of ANY length: two returned calls got the same UUID exactly when the readings they HELD have
+    the same 100 ns tick and they are a multiple of 16384 increments apart; in particular the results are
+    pairwise distinct whenever no two calls holding the same tick are 16384 or more increments apart -/
+theorem C19_conc_dup_iff (hw : List UInt8) (c : Nat) (t : Int × Nat) (acts : List Act) (i j : Nat)
+    (hi : i < ((concRun hw (concInit c t) acts).out.map (·.reading)).length)
+    (hj : j < ((concRun hw (concInit c t) acts).out.map (·.reading)).length) :
+    ((concRun hw (concInit c t) acts).out.map (·.uuid))[i]? = ((concRun hw (concInit c t) acts).out.map (·.uuid))[j]? ↔
+    tick ((concRun hw (concInit c t) acts).out.map (·.reading))[i] =
+      tick ((concRun hw (concInit c t) acts).out.map (·.reading))[j] ∧ i % 16384 = j % 16384 := by
+  rw [(C19_conc_linearizes hw c t acts).1]
+  generalize (concRun hw (concInit c t) acts).out.map (·.reading) = rs at hi hj
+  rw [List.getElem?_eq_getElem (by rw [genRun_length]; exact hi),
+    List.getElem?_eq_getElem (by rw [genRun_length]; exact hj), Option.some.injEq]
+  exact C19_timeuuid_dup_iff hw c rs i j hi hj
+
+theorem C19_conc_unique_if_clock_advances (hw : List UInt8) (c : Nat) (t : Int × Nat) (acts : List Act)
+    (h : ∀ i j (hi : i < ((concRun hw (concInit c t) acts).out.map (·.reading)).length)
+      (hj : j < ((concRun hw (concInit c t) acts).out.map (·.reading)).length), i < j →
+      tick ((concRun hw (concInit c t) acts).out.map (·.reading))[i] =
+        tick ((concRun hw (concInit c t) acts).out.map (·.reading))[j] → j - i < 16384) :
+    ((concRun hw (concInit c t) acts).out.map (·.uuid)).Pairwise (· ≠ ·) := by
+  rw [(C19_conc_linearizes hw c t acts).1]
+  exact C19_timeuuid_unique_if_clock_advances hw c _ h
+
+/-- so the verdict field of the model's answer to a `sched` op (at most 16384 returns) is `distinct` -/
+theorem C19_sched_answer_distinct (hw : List UInt8) (c : Nat) (t : Int × Nat) (acts : List Act)
+    (h : (concRun hw (concInit c t) acts).out.length ≤ 16384) :
+    firstDup ((concRun hw (concInit c t) acts).out.map (·.uuid)) = none := by
+  have hp := C19_conc_unique_upto_16384 hw c t acts h
+  cases hf : firstDup ((concRun hw (concInit c t) acts).out.map (·.uuid)) with
+  | none => rfl
+  | some ij =>
+    obtain ⟨i, j⟩ := ij
+    obtain ⟨hij, u, hi, hj⟩ := (firstDup_spec _).1 i j hf
+    rw [List.pairwise_iff_getElem] at hp
+    obtain ⟨hi', hiu⟩ := List.getElem?_eq_some_iff.mp hi
+    obtain ⟨hj', hju⟩ := List.getElem?_eq_some_iff.mp hj
+    exact absurd (hiu.trans hju.symm) (hp i j hi' hj' hij)
+
+/-- KF-C19-1 (b) as a theorem about schedules, from ANY state: goroutines `g` and `g'` are both between their
+    reading and their increment and hold readings of the same tick; `g'` increments; then the others do anything
+    (`mid`: no step of `g`; the wall clock may advance as it likes; exactly 16383 further calls return); then `g`
+    increments — and is handed the very UUID `g'` got. -/
+theorem C19_conc_dup_descheduled (hw : List UInt8) (s : Conc) (g g' : Nat) (r r' : Int × Nat) (mid : List Act)
+    (hne : g' ≠ g) (hg : heldOf s.held g = some r) (hg' : heldOf s.held g' = some r')
+    (ht : tick r = tick r') (hmid : ∀ a ∈ mid, actOf a ≠ some g)
+    (hn : (concRun hw (concStep hw s (.inc g')) mid).out.length = s.out.length + 1 + 16383) :
+    ∃ u, (concRun hw s (.inc g' :: mid ++ [.inc g])).out[s.out.length]? = some ⟨g', r', u⟩ ∧
+         (concRun hw s (.inc g' :: mid ++ [.inc g])).out[s.out.length + 16384]? = some ⟨g, r, u⟩ :=
+  conc_dup_descheduled hw s g g' r r' mid hne hg hg' ht hmid hn
+
+/-- counterexample to "pairwise distinct for any number of concurrent generators" in which the wall clock moves
+    on by a full tick before EVERY call that starts after the first two readings (no clock standing still, no
+    fixed time argument): goroutines 0 and 1 read the clock; 1 increments; 1 makes 16383 further calls, each at a
+    later tick; 0 increments — results 0 and 16384 are the same UUID, for every node and counter value. -/
+theorem C19_cex_conc_advancing_clock (hw : List UInt8) (c : Nat) :
+    ∃ u, (concRun hw (concInit c (1700000000, 0))
+            ([.now 0, .now 1, .inc 1] ++ callsOf 1 (fun i => unixNorm 1700000000 ((i + 1) * 100)) 16383 ++ [.inc 0])).out[0]?
+          = some ⟨1, (1700000000, 0), u⟩ ∧
+         (concRun hw (concInit c (1700000000, 0))
+            ([.now 0, .now 1, .inc 1] ++ callsOf 1 (fun i => unixNorm 1700000000 ((i + 1) * 100)) 16383 ++ [.inc 0])).out[16384]?
+          = some ⟨0, (1700000000, 0), u⟩ := by
+  let s : Conc := ⟨c, (1700000000, 0), [(1, (1700000000, 0)), (0, (1700000000, 0))], []⟩
+  have hs : ∀ rest, concRun hw (concInit c (1700000000, 0)) ([.now 0, .now 1, .inc 1] ++ rest) =
+      concRun hw s (.inc 1 :: rest) := fun rest => rfl
+  rw [List.append_assoc, hs]
+  have h1 : heldOf (concStep hw s (.inc 1)).held 1 = none := heldOf_filter_self 1 _
+  have := conc_dup_descheduled hw s 0 1 (1700000000, 0) (1700000000, 0)
+    (callsOf 1 (fun i => unixNorm 1700000000 ((i + 1) * 100)) 16383) (by decide) rfl rfl rfl
+    (callsOf_frame 0 1 (by decide) _ _)
+    (by rw [(conc_calls hw 1 _ 16383 _ h1).1]; rfl)
+  have hl : s.out.length = 0 := rfl
+  rw [hl, Nat.zero_add] at this
+  exact this
+
+/-- What each goroutine SEES, every schedule whose wall clock never steps back (`WallOk`: every `wall t` action is
+    at or after the previous reading, inside the representable range) — however the readings and increments of
+    any number of goroutines interleave: every returned UUID carries EXACTLY the 100 ns tick of the reading its
+    caller held, that tick lies between the tick of the start reading and the tick of the wall clock at the end,
+    and the timestamps of ONE goroutine's results never decrease in return order.  (These are the burst op's
+    interval and per-goroutine monitors, here for all interleavings; across goroutines the timestamps need NOT be
+    monotone in increment order — the example below.) -/
+theorem C19_conc_goroutine_timestamps_monotone (hw : List UInt8) (c : Nat) (t0 : Int × Nat) (acts : List Act)
+    (h0 : Representable t0.1 t0.2) (hok : WallOk t0 acts) :
+    (∀ r ∈ (concRun hw (concInit c t0) acts).out,
+      timestamp r.uuid = tick r.reading ∧ tick t0 ≤ timestamp r.uuid ∧
+      timestamp r.uuid ≤ tick (concRun hw (concInit c t0) acts).wall) ∧
+    (concRun hw (concInit c t0) acts).out.Pairwise (fun a b => a.g = b.g → timestamp a.uuid ≤ timestamp b.uuid) := by
+  have hinit : MonoInv t0 (concInit c t0) :=
+    ⟨h0, readingLe_refl _, fun p hp => (by cases hp), fun r hr => (by cases hr),
+      fun p hp => (by cases hp), List.Pairwise.nil⟩
+  obtain ⟨⟨wr, _, _, ol, _, pw⟩, _⟩ := monoInv_run hw t0 acts (concInit c t0) hinit hok
+  refine ⟨fun r hr => ?_, ?_⟩
+  · obtain ⟨h1, h2, h3, h4⟩ := ol r hr
+    refine ⟨h4, ?_, ?_⟩
+    · rw [h4]; exact tick_mono _ _ h0 h3 h2
+    · rw [h4]; exact tick_mono _ _ h3 wr h1
+  · rw [List.pairwise_iff_getElem] at pw ⊢
+    intro i j hi hj hij hg
+    have := pw i j hi hj hij hg
+    obtain ⟨_, _, ri, ei⟩ := ol _ (List.getElem_mem hi)
+    obtain ⟨_, _, rj, ej⟩ := ol _ (List.getElem_mem hj)
+    rw [ei, ej]
+    exact tick_mono _ _ ri rj this
+
+/-- so the `mon=` field of the model's answer to a `sched` op whose wall clock never steps back is `ok` -/
+theorem C19_sched_monitors_ok (hw : List UInt8) (c : Nat) (t0 : Int × Nat) (acts : List Act)
+    (h0 : Representable t0.1 t0.2) (hok : WallOk t0 acts) :
+    monitorsOk t0 (concRun hw (concInit c t0) acts).wall (concRun hw (concInit c t0) acts).out = true := by
+  obtain ⟨h1, h2⟩ := C19_conc_goroutine_timestamps_monotone hw c t0 acts h0 hok
+  exact monFold_true _ _ _ [] (fun r hr => (h1 r hr).2) h2 (fun p hp => by cases hp)
+
+/-- non-vacuity: the schedule of the example below satisfies `WallOk`, and ACROSS goroutines the timestamps do
+    decrease in increment order (goroutine 0 was overtaken) -/
+example : WallOk (1700000000, 0) [.now 0, .wall (1700000000, 100), .now 1, .inc 1, .inc 0] := by
+  refine ⟨Or.inr ⟨rfl, by decide⟩, by decide, trivial⟩
+example : ((concRun [1, 2, 3, 4, 5, 6] (concInit 7 (1700000000, 0))
+    [.now 0, .wall (1700000000, 100), .now 1, .inc 1, .inc 0]).out.map (fun r => timestamp r.uuid)) =
+    [139192928000000001, 139192928000000000] := by decide
+
+/-- the run the native driver executes on long schedules (results accumulated newest-first, reversed at the end)
+    is the machine's run -/
+theorem C19_conc_fast_eq (hw : List UInt8) (s : Conc) (acts : List Act) : concRunFast hw s acts = concRun hw s acts :=
+  concRunFast_eq hw s acts
+
+/-- non-vacuity: a small schedule run through the machine — goroutine 0 is overtaken by goroutine 1 between its
+    reading and its increment, so the readings are NOT in increment order -/
+example : ((concRun [1, 2, 3, 4, 5, 6] (concInit 7 (1700000000, 0))
+    [.now 0, .wall (1700000000, 100), .now 1, .inc 1, .inc 0]).out.map (fun r => (r.g, r.reading))) =
+    [(1, (1700000000, 100)), (0, (1700000000, 0))] := by decide
 
 end C19
